@@ -1,4 +1,8 @@
+//! vf-core: SQL-level differential checks (C01 C02 C03) on top of vf-df and vf_kit::refsql.
+mod c01;
+
 fn main() {
-    eprintln!("no sub-commands yet");
-    std::process::exit(2);
+    vf_kit::dispatch! {
+        "c01" => c01::C01,
+    }
 }
